@@ -4,12 +4,16 @@
 (* operations).  TLC proves on the model that the graph is forward, that reachability is       *)
 (* exactly "a chain of operations successively sharing a wire", and that every topological     *)
 (* order keeps the program's order on every wire; each program is printed with its reach set. *)
+(* The harness converts each program under several object histories (converted before, an      *)
+(* instance of a converted template, operation list reversed in place after a conversion):     *)
+(* the graph is a function of the operations the program holds at the time of the call.        *)
 EXTENDS BBGraph, TLC, Json
 CONSTANTS NOps, NW
 W == 0..(NW - 1)
 ModeSeqs == {<<a>> : a \in W} \cup {s \in W \X W : s[1] # s[2]} \cup (IF NW >= 3 THEN {<<0, 2, 1>>, <<1, 0, 2>>} ELSE {})
 OpMenu == {[name |-> "G", modes |-> m, regs |-> {}, args |-> "none"] : m \in ModeSeqs}
           \cup {[name |-> "G", modes |-> m, regs |-> {}, args |-> "plain"] : m \in {s \in ModeSeqs : Len(s) = 1}}
+          \cup {[name |-> "T", modes |-> m, regs |-> {}, args |-> "par"] : m \in {s \in ModeSeqs : Len(s) = 1}}     \* a template parameter in the argument
           \cup {[name |-> "R", modes |-> m, regs |-> {r}, args |-> a] : m \in {s \in ModeSeqs : Len(s) <= 2}, r \in W, a \in {"pos", "kw"}}
 OpMenuOK == {o \in OpMenu : o.regs \cap {o.modes[i] : i \in 1..Len(o.modes)} = {}}
 VARIABLES ops, done
